@@ -155,6 +155,48 @@ SelectVariant(chain, version, eb) ==
                 [] OTHER -> "none"
     ELSE "cuckatoo"
 
+\* The boundary is a property of the edge bits alone on the long-lived networks: the secondary
+\* (ASIC-resistant) proof of work is the 29-bit one, every primary size (31 and more) is cuckatoo.
+SelectBoundary ==
+    \A chain \in {"mainnet", "testnet"} : \A version \in 1..5 :
+        /\ \A eb \in 30..63 : SelectVariant(chain, version, eb) = "cuckatoo"
+        /\ \A eb \in 1..29 : SelectVariant(chain, version, eb) # "cuckatoo"
+        /\ \A eb \in 1..29 : \A eb2 \in 1..29 : SelectVariant(chain, version, eb) = SelectVariant(chain, version, eb2)
+
+-----------------------------------------------------------------------------
+(* The weight of a graph size in the difficulty a proof achieves            *)
+(* (difficulty = weight * 2^64 / hash of the packed nonces, for every size  *)
+(* but the secondary one).  A graph of 2^eb edges weighs 2^(eb-base+1) * eb *)
+(* ("number of siphash bits defining the graph"), base being the chain      *)
+(* type's reference size.  31-bit graphs are phased out: from the end of    *)
+(* the first year on their weight loses one "bit" at the start of every     *)
+(* week and nothing is left from the 31st week on.                          *)
+
+WeekHeight == 7 * 24 * 60
+YearHeight == 52 * WeekHeight
+BaseEdgeBits(chain) == CASE chain = "automated" -> 10
+                         [] chain = "usertesting" -> 15
+                         [] OTHER -> 24
+WeightBits(eb, height) ==
+    IF eb = 31 /\ height >= YearHeight
+    THEN LET weeks == 1 + (height - YearHeight) \div WeekHeight
+         IN IF weeks >= 31 THEN 0 ELSE 31 - weeks
+    ELSE eb
+GraphWeight(base, eb, height) == (2 ^ (eb - base + 1)) * WeightBits(eb, height)
+
+\* what the rule is for (checked by TLC as an assumption of MC_CuckooSize): untouched during the
+\* first year, never increasing, one step a week, gone after 30 weeks; other sizes do not depend
+\* on the height; the 32-bit weight is the minimum difficulty constant 16384 of the main network
+WeightRuleOK ==
+    /\ \A h \in {0, 1, 100000, YearHeight - 1} : GraphWeight(24, 31, h) = 256 * 31
+    /\ \A w \in 0..40 : \A d \in {0, 1, WeekHeight - 1} :
+          LET h == YearHeight + w * WeekHeight + d IN
+          /\ GraphWeight(24, 31, h) = 256 * (IF w >= 30 THEN 0 ELSE 30 - w)
+          /\ GraphWeight(24, 31, h + 1) <= GraphWeight(24, 31, h)
+          /\ \A eb \in {29, 30, 32, 33} : GraphWeight(24, eb, h) = GraphWeight(24, eb, 0)
+    /\ GraphWeight(24, 32, 0) = 16384
+    /\ GraphWeight(10, 10, 0) = 20
+
 -----------------------------------------------------------------------------
 (* The node's entry point pow::verify_size(header).  The header carries the *)
 (* chain height (hence the header version), the edge bits and the nonce     *)
